@@ -99,8 +99,21 @@ def _parse(out, rc, wall):
     return res
 
 
+def cfg_with(cfg, overrides, tmpdir):
+    """Copy spec/<cfg> to tmpdir with `Name = value` / `Name <- value` constant lines replaced."""
+    text = open(os.path.join(SPEC_DIR, cfg)).read()
+    for name, val in overrides.items():
+        text, n = re.subn(rf'^(\s*{re.escape(name)}\s*)(=|<-)\s*\S+\s*$', lambda m: f'{m.group(1)}{m.group(2)} {val}', text, flags=re.M)
+        if n != 1:
+            raise MachineryError(f'cfg override {name} matched {n} lines in {cfg}')
+    path = os.path.join(tmpdir, 'ovr_' + os.path.basename(cfg))
+    with open(path, 'w') as f:
+        f.write(text)
+    return path
+
+
 def run_tlc(module, cfg=None, *, env=None, workers=1, coverage=False, timeout=3600, extra=(),
-            xmx='3g', deadlock=False, cwd=None, depth_first=False):
+            xmx='3g', deadlock=False, cwd=None, depth_first=False, overrides=None):
     """Run TLC on spec/<module>.tla with spec/<cfg>.  Returns TLCResult.
 
     Raises MachineryError when TLC did not finish normally for a reason other than a property /
@@ -109,6 +122,8 @@ def run_tlc(module, cfg=None, *, env=None, workers=1, coverage=False, timeout=36
     cwd = cwd or SPEC_DIR
     cfg = cfg or (module + '.cfg')
     meta = mktmp('tlcmeta-')
+    if overrides:
+        cfg = cfg_with(cfg, overrides, meta)
     cmd = ['java', f'-Xmx{xmx}', '-Xss512m', '-XX:+UseParallelGC']
     if depth_first:
         cmd.append('-Dtlc2.tool.queue.IStateQueue=StateDeque')
@@ -176,7 +191,8 @@ def judge(module, records, *, cfg=None, shards=None, env=None, timeout=3600, max
     if n == 0:
         return 0, []
     if shards is None:
-        shards = max(1, min(max_parallel, n // 1500 + 1))
+        approx = sum(len(json.dumps(r, separators=(',', ':'))) for r in records[::max(1, n // 200)]) * max(1, n // 200)
+        shards = max(1, min(max_parallel, n // 1500 + 1, n) if approx < 400_000 else min(max_parallel, n, approx // 150_000 + 1))
     shards = max(1, min(shards, n))
     tmp = mktmp('judge-')
     try:
